@@ -1109,10 +1109,14 @@ class Event(Boolean):
 
     @instance_descriptor
     def __set__(self, obj, val):
-        if self._mode in ['set-reset', 'set']:
-            super().__set__(obj, val)
-        if self._mode in ['set-reset', 'reset']:
-            self._reset_event(obj, val)
+        try:
+            if self._mode in ['set-reset', 'set']:
+                super().__set__(obj, val)
+        finally:
+            # Also reset when a watcher raised, otherwise the Event stays
+            # True and can never be triggered again.
+            if self._mode in ['set-reset', 'reset']:
+                self._reset_event(obj, val)
 
 #-----------------------------------------------------------------------------
 # Tuple
